@@ -629,6 +629,7 @@ func Forall(vars []*Term, body *Term, pats0 ...[]*Term) *Term {
 			pats = append(pats, p)
 		}
 	}
+	vars, body, pats = canonBound(vars, body, pats)
 	t := &Term{Op: "forall", Args: []*Term{body}, Sort: SBool, Bound: vars, Pats: pats}
 	r := TS.intern(t)
 	r.flags = 0
@@ -642,6 +643,7 @@ func Exists(vars []*Term, body *Term) *Term {
 	if len(vars) == 0 {
 		return body
 	}
+	vars, body, _ = canonBound(vars, body, nil)
 	t := &Term{Op: "exists", Args: []*Term{body}, Sort: SBool, Bound: vars}
 	r := TS.intern(t)
 	r.flags = 0
@@ -664,6 +666,61 @@ func mentions(t, v *Term) bool {
 		}
 	}
 	return false
+}
+
+// quantDepth: nesting depth of quantifiers inside t (memoised).
+var quantDepthMemo = map[int]int{}
+
+func quantDepth(t *Term) int {
+	if t.flags&flagHasBound == 0 && t.Op != "forall" && t.Op != "exists" {
+		// closed terms may still contain quantifiers; fall through to the scan but memoise
+	}
+	if d, ok := quantDepthMemo[t.id]; ok {
+		return d
+	}
+	d := 0
+	for _, a := range t.Args {
+		if x := quantDepth(a); x > d {
+			d = x
+		}
+	}
+	if t.Op == "forall" || t.Op == "exists" {
+		d++
+	}
+	quantDepthMemo[t.id] = d
+	return d
+}
+
+// canonBound renames the bound variables of a quantifier to canonical names determined by nesting depth, position and
+// sort, so that alpha-equivalent formulas are the same term (solvers treat differently named binders as different
+// atoms). Inner quantifiers have smaller depth numbers, so no capture can occur.
+func canonBound(vars []*Term, body *Term, pats [][]*Term) ([]*Term, *Term, [][]*Term) {
+	d := quantDepth(body)
+	m := map[int]*Term{}
+	nv := make([]*Term, len(vars))
+	same := true
+	for i, v := range vars {
+		c := TS.intern(&Term{Name: fmt.Sprintf("q%d_%d", d, i), Sort: v.Sort, flags: flagHasBound})
+		c.flags |= flagHasBound
+		nv[i] = c
+		if c != v {
+			m[v.id] = c
+			same = false
+		}
+	}
+	if same {
+		return vars, body, pats
+	}
+	nb := Subst(body, m)
+	var np [][]*Term
+	for _, p := range pats {
+		var q []*Term
+		for _, x := range p {
+			q = append(q, Subst(x, m))
+		}
+		np = append(np, q)
+	}
+	return nv, nb, np
 }
 
 // containsFreeBound reports whether t mentions a bound variable not in vars.
